@@ -14,7 +14,7 @@ The result is written to /verif/seeded/<id>/ (patch.diff, demo, NOTES.md, meta.j
 import json, os, re, shutil, subprocess, sys, time
 
 ENV = dict(os.environ, GOFLAGS='-mod=mod', GOPROXY='off', GOSUMDB='off', GOTOOLCHAIN='local', GOCACHE='/verif/.cache/go-build')
-WT = '/tmp/wt/eval'
+WT = os.environ.get('INGEST_WT', '/tmp/wt/eval')
 
 
 def sh(cmd, cwd=WT, timeout=3600, env=ENV):
@@ -52,7 +52,7 @@ def main():
     meta = {'id': name, 'property': prop, 'source': 'independent sub-agent (given only the property text and a scratch worktree)', 'confirmed_on': time.strftime('%Y-%m-%d %H:%M UTC', time.gmtime())}
     sh('git checkout -q -- . && git clean -fdq')
     # baseline failing set (cached)
-    cache = '/verif/.work/suite_baseline_failures.json'
+    cache = '/verif/.work/suite_baseline_failures.json'  # shared by all evaluation worktrees (same HEAD)
     head = sh('git rev-parse HEAD')[1].strip()
     base = None
     if os.path.exists(cache):
